@@ -65,6 +65,7 @@ func (s *Set[T]) Contents() []T {
 	for item := range s.contents {
 		items = append(items, item)
 	}
+	items = verifOrder(items)
 	return items
 }
 
